@@ -176,7 +176,7 @@ def rand_sel(rng):
 def one(ctx: Ctx, cs, n_triples=110):
     import kernpy as kp
     TC = kp.TokenCategory
-    doc, pname = make_doc(cs, None, p_sig=0.95, p_hidden_bar=0.3 if cs % 5 == 1 else 0.0)
+    doc, pname = make_doc(cs, None, p_sig=0.95, p_hidden_bar=0.3 if cs % 5 == 1 else 0.0, null_like_words=0.2 if cs % 4 == 2 else 0.02)
     x = doc.text(0)
     ctx.ev()
     ctx.mon('documents')
